@@ -243,9 +243,19 @@ theorem needGet_total (e : Enc) (b : SecBuf) (hs : Sec b) (str : Option SecBuf) 
       dsimp only
       split
       · exact ⟨_, rfl⟩
-      · rw [vrd16_ok hs hd _ _ (by omega), vrd32_ok hs hd _ _ (by omega), vrd16_ok hs hd _ _ (by omega),
-          vrd16_ok hs hd _ _ (by omega)]
-        exact ⟨_, rfl⟩
+      · rename_i hnb
+        -- past the (generated) null test both names are there: the assignments cannot fault
+        split
+        · rw [vrd16_ok hs hd _ _ (by omega), vrd32_ok hs hd _ _ (by omega), vrd16_ok hs hd _ _ (by omega),
+            vrd16_ok hs hd _ _ (by omega)]
+          exact ⟨_, rfl⟩
+        · rename_i hno
+          exfalso
+          simp only [tq_vr_names_bad, Bool.or_eq_true, not_or, Option.isNone_iff_eq_none] at hnb
+          obtain ⟨h1, h2⟩ := hnb
+          obtain ⟨f, hf⟩ := Option.ne_none_iff_exists'.mp h1
+          obtain ⟨n, hn⟩ := Option.ne_none_iff_exists'.mp h2
+          exact hno f n hf hn
 
 theorem defLoop_total (e : Enc) {b : SecBuf} (hs : Sec b) {d : Bytes} (hd : b.data = some d) (no : BitVec 32) :
     ∀ (fuel : Nat) (i : BitVec 32) (pos : BitVec 64) (va : Nat), pos.toNat + 20 ≤ b.size.toNat →
@@ -347,8 +357,15 @@ theorem defGet_total (e : Enc) (b : SecBuf) (hs : Sec b) (str : Option SecBuf) (
       dsimp only
       split
       · exact ⟨_, rfl⟩
-      · rw [vrd16_ok hs hd _ _ (by omega), vrd16_ok hs hd _ _ (by omega), vrd32_ok hs hd _ _ (by omega)]
-        exact ⟨_, rfl⟩
+      · rename_i hnb
+        -- past the (generated) null test the name is there: the assignment cannot fault
+        split
+        · rename_i hno
+          exfalso
+          simp only [tq_vd_names_bad, Option.isNone_iff_eq_none] at hnb
+          exact hnb hno
+        · rw [vrd16_ok hs hd _ _ (by omega), vrd16_ok hs hd _ _ (by omega), vrd32_ok hs hd _ _ (by omega)]
+          exact ⟨_, rfl⟩
 
 end C18
 end ElfioVerif
